@@ -71,12 +71,24 @@ Fixpoint keys_ascending {A} (l : list (bytes * A)) : bool :=
   | (k, _) :: r => match r with [] => true | (k', _) :: _ => bytes_ltb k k' && keys_ascending r end
   end.
 
+(* universally quantified checks usable under nested recursion *)
+Definition obj_all (fk : bytes -> bool) (fv : json -> bool) : list (bytes * json) -> bool :=
+  fix go (l : list (bytes * json)) : bool :=
+    match l with [] => true | (k, v) :: r => fk k && fv v && go r end.
+(* every element is an object with exactly the keys "k" and "v" whose values satisfy [f] *)
+Definition entries_all (kk kv : bytes) (f : json -> bool) : list json -> bool :=
+  fix go (es : list json) : bool :=
+    match es with
+    | [] => true
+    | JObj [(a, kj); (b, vj)] :: r => bytes_eqb a kk && bytes_eqb b kv && f kj && f vj && go r
+    | _ => false
+    end.
+
 (* the representation invariant of [serde_json::Value] in this build *)
 Fixpoint json_wf (j : json) : bool :=
   match j with
   | JArr l => forallb json_wf l
-  | JObj l => keys_ascending l && (fix go (l : list (bytes * json)) : bool :=
-                 match l with [] => true | (_, v) :: r => json_wf v && go r end) l
+  | JObj l => keys_ascending l && obj_all (fun _ => true) json_wf l
   | _ => true
   end.
 
